@@ -130,6 +130,7 @@ def all_cases(tier):
                         continue
                     yield ("V", n, parent, allmode, how)
     if tier == "thorough":
+        small = [s for s in small if not (s[0] == "block" and s[1] == "try-full")]  # (four-arm blocks stay in the pairs above)
         for s1 in small:
             for s2 in small:
                 for s3 in small:
